@@ -233,7 +233,7 @@ def judge_c07(d):
 
 
 PROPS["C07"] = {
-    "lean_modules": ["P2.Props.C07"],
+    "lean_modules": ["P2.Props.C07", "P2.Props.C07b"],
     "audit_module": "P2.Audit.C07",
     "harness_prop": "c07",
     "profile": "release",
@@ -322,6 +322,34 @@ PROPS["C01"] = {
     "level_note": "Admissible := check_config passes and build returns; configurations the builder refuses loudly are counted only. F-C01-1 (honest proof rejected under Fixed arities exceeding the degree) found with this check and repaired in /repo. F-C01-2 (zk with Fixed/small MinSize schedules never fits blinding) is avoided by the generator and recorded in DESIGN.md.",
     "assumptions": ["negligible-probability prover failures (zeta in H, PoW search exhausted) are not expected within the explored cases"],
     "rule": "generated programs (6-300 ops; arithmetic, boolean, select, split/range-check, random access, exponentiation, hashing, lookups with 1-3 tables of 1-60 entries, extension arithmetic) x configs (zk, narrow/wide rows, Fixed/Constant/MinSize, rate 3-4, cap 0-4, 1-3 challenges, standard and cheap strength); distinct = distinct request lines",
+}
+
+PROPS["C02"] = {
+    "lean_modules": ["P2.Props.C03", "P2.Props.C07b"],
+    "audit_module": "P2.Audit.C02",
+    "harness_prop": "c02",
+    "profile": "release",
+    "judge": judge_plonk_verdict,
+    "trusted_base": PLONK_TB + [
+        "adversarial prover strategies behind hooks (Z override, quotient perturbation, grinding override) are not built yet: only the honest algorithm on an invalid witness through the public prove_with_partition_witness (partial)",
+    ],
+    "level_text": "Lean 4: verifier decision logic (acceptance forces the quotient identity for challenges recomputed from the proof) and the gate pinning theorems (a generator-written output changed alone makes its gate's constraint non-zero, all parameters); tied by exact verdict agreement of the Lean verifier with CircuitData::verify on proofs the real prover emits for certainly-violating witnesses (gate output changed alone, one routed member of a copy class made to differ, class-wide change of a produced-and-consumed variable), incl. routed-wire counts that are not a multiple of the quotient degree factor; REJECT asserted at standard strength",
+    "level_note": "The algebraic soundness core (violation => identity fails off an explicit small challenge set) is being added as theorems over P2/Model/PlonkAlg.lean; FRI proximity and the random oracle are assumed. Virtual targets are names, not trace cells: only routed wire cells are corrupted.",
+    "assumptions": ["FRI proximity soundness", "random oracle"],
+    "rule": "generated programs x configs (every second circuit with 28/37/45/50/61 routed wires) x 6 certain-to-violate corruptions; every emitted proof verified by both verifiers; distinct = distinct request lines",
+}
+
+PROPS["C08"] = {
+    "lean_modules": ["P2.Props.C03", "P2.Props.C01"],
+    "audit_module": "P2.Audit.C08",
+    "harness_prop": "c08",
+    "profile": "release",
+    "judge": judge_c01,
+    "trusted_base": PLONK_TB + ["the prover-side lookup columns (RE/Sum/LDC, multiplicities) are not modelled: tied through the verifier model's check_lookup_constraints and the honest-flow oracle (partial)"],
+    "level_text": "Lean 4: check_lookup_constraints / get_lut_poly inside the verifier model, lookup semantics in evalProg; dedicated lookup circuits (1-4 tables of 1..2 rows' worth, duplicate outputs, an input shared by all tables with different outputs; lookup counts at exact multiples of the slot count, +-1, heavy repetition, single used entry; 80 and 50 routed wires, 2-3 challenges) must prove, verify and carry the table's values (Rust evaluation, Lean evalProg, Lean verifier accepts); lookup outputs replaced class-wide by a wrong value or by ANOTHER table's value for the same input must be rejected by both verifiers",
+    "level_note": "logUp / RE-polynomial / telescoping theorems are being added; until then the lookup algebra is tied by correspondence only. Tables with duplicate inputs are outside the property (a table is a function).",
+    "assumptions": ["FRI proximity soundness", "random oracle"],
+    "rule": "8 (thorough 40) lookup circuits x positive flow + 4-6 lookup-specific corruptions; distinct = distinct request lines",
 }
 
 NOT_CLAIMED = {}
